@@ -95,7 +95,10 @@ func ambiguous(tree T) bool {
 	lim := new(big.Int).Lsh(bi(1), 580)
 	n := 0
 	if ar, ok := tree["a_responses"].(T); ok {
-		for _, v := range ar {
+		for k, v := range ar {
+			if k == "0" {
+				continue // the secret key is never taken for the revocation attribute
+			}
 			if h, ok := isLeafI(v); ok && unhx(h).Cmp(lim) < 0 {
 				n++
 			}
@@ -249,6 +252,97 @@ func genC11(g *Rng, tier string, emit func(Op)) {
 			p := b.CreateProof(c).(*gabi.ProofD)
 			wacc := w.SignedAccumulator.Accumulator
 			emit(honestNrOp(kp, proofDTree(p), ctx, nonce, "small-secretkey-randomizer", fmt.Sprintf("accept:%d:%d", wacc.Index, wacc.Time)))
+		}
+		// the form of the known finding that remains: an honest prover whose randomiser for ANOTHER
+		// hidden attribute happens to be short (probability 2^-12 per attribute and proof; forced here
+		// through the builder's randomiser table)
+		{
+			ir := newIssuerRev(g, kp)
+			w := ir.witnessFor()
+			cred := issueCred(kp, randSecret(g), []*big.Int{g.bits(100), w.E})
+			cred.NonRevocationWitness = w
+			b, err := cred.CreateDisclosureProofBuilder(nil, nil, true)
+			if err != nil {
+				panic(err)
+			}
+			_, _, attrRand := b.VerifRandomizers()
+			attrRand[1] = g.bits(500)
+			ctx, nonce := g.bits(256), g.bits(80)
+			c, err := gabi.ProofBuilderList{b}.ChallengeWithRandomizers(ctx, nonce, map[string]*big.Int{"secretkey": g.exactBits(592)}, false)
+			if err != nil {
+				panic(err)
+			}
+			p := b.CreateProof(c).(*gabi.ProofD)
+			wacc := w.SignedAccumulator.Accumulator
+			emit(honestNrOp(kp, proofDTree(p), ctx, nonce, "short-attribute-randomizer", fmt.Sprintf("accept:%d:%d", wacc.Index, wacc.Time)))
+		}
+		// a revoked holder whose SECRET KEY equals the revocation value of a colluding, unrevoked
+		// holder: the non-revocation part is built from the other holder's witness and tied to the
+		// secret-key response (made small); the credential's own revocation attribute gets a
+		// full-size randomiser, so the verifier's guess falls on index 0
+		{
+			ir := newIssuerRev(g, kp)
+			wA, wB := ir.witnessFor(), ir.witnessFor()
+			credA := issueCred(kp, new(big.Int).Set(wB.E), []*big.Int{g.bits(100), wA.E})
+			ir.revoke(wA.E)
+			if err := wB.Update(pk, ir.updateFrom(1)); err == nil {
+				b, err := credA.CreateDisclosureProofBuilder(nil, nil, false)
+				if err != nil {
+					panic(err)
+				}
+				_, _, attrRand := b.VerifRandomizers()
+				attrRand[1], attrRand[2] = g.exactBits(592), g.exactBits(592)
+				rnd := g.bits(500)
+				ctx, nonce := g.bits(256), g.bits(80)
+				contribs, err := b.Commit(map[string]*big.Int{"secretkey": rnd})
+				if err != nil {
+					panic(err)
+				}
+				nrContribs, commit, err := revocation.NewProofCommit(pk, wB, rnd)
+				if err != nil {
+					panic(err)
+				}
+				c := gabi.VerifCreateChallenge(ctx, nonce, append(contribs, nrContribs...), false)
+				pd := b.CreateProof(c).(*gabi.ProofD)
+				nr := commit.BuildProof(c)
+				delete(nr.Responses, "alpha")
+				pd.NonRevocationProof = nr
+				emit(nrOp(kp, proofDTree(pd), ctx, nonce, "foreign-witness-via-secret-key", "reject").with("fkey", "C11/foreign-witness-via-secret-key"))
+			}
+		}
+		// honest proofs whose non-revocation randomiser sits at the ends of its range [0, 2^579)
+		// (NewProofRandomizer can return any of these): all must be accepted
+		{
+			ir := newIssuerRev(g, kp)
+			w := ir.witnessFor()
+			cred := issueCred(kp, randSecret(g), []*big.Int{g.bits(100), w.E})
+			cred.NonRevocationWitness = w
+			wacc := w.SignedAccumulator.Accumulator
+			top := new(big.Int).Lsh(bi(1), 579)
+			for _, rnd := range []*big.Int{new(big.Int).Sub(top, bi(1)), new(big.Int).Sub(top, g.bits(300)), new(big.Int).Sub(top, g.bits(570)), bi(0), bi(1)} {
+				plain := &gabi.Credential{Signature: cred.Signature, Pk: cred.Pk, Attributes: cred.Attributes}
+				b, err := plain.CreateDisclosureProofBuilder(nil, nil, false)
+				if err != nil {
+					panic(err)
+				}
+				_, _, attrRand := b.VerifRandomizers()
+				attrRand[2] = rnd
+				ctx, nonce := g.bits(256), g.bits(80)
+				contribs, err := b.Commit(map[string]*big.Int{"secretkey": g.exactBits(592)})
+				if err != nil {
+					panic(err)
+				}
+				nrContribs, commit, err := revocation.NewProofCommit(pk, w, rnd)
+				if err != nil {
+					panic(err)
+				}
+				c := gabi.VerifCreateChallenge(ctx, nonce, append(contribs, nrContribs...), false)
+				pd := b.CreateProof(c).(*gabi.ProofD)
+				nr := commit.BuildProof(c)
+				delete(nr.Responses, "alpha")
+				pd.NonRevocationProof = nr
+				emit(honestNrOp(kp, proofDTree(pd), ctx, nonce, "randomizer-at-range-end", fmt.Sprintf("accept:%d:%d", wacc.Index, wacc.Time)))
+			}
 		}
 		// volume of honest proofs (thorough): each must be accepted
 		if nhonest > 0 && kp.id == "k1024ar" {
